@@ -87,12 +87,12 @@ theorem nodup_old_new {L : Log} (hnd : L.entries.Nodup) (m : OMap) (hm : m.Nodup
 
 /-- 3. **`Load` of one head does not panic**, whatever the amount, when the log is closed under
 `next` (in particular a fresh store) or already holds `amount` entries -/
-theorem loadHead_no_panic {U : List Entry} (hU : HashDet U) (hT : TieFree U) (hM : ClockMono U)
+theorem loadHead0_no_panic {U : List Entry} (hU : HashDet U) (hT : TieFree U) (hM : ClockMono U)
     (acl : Acl) (fetch : Nat → OMap) (amount : Int) {L : Log} (h : Nat) (hG : Good U L)
     (hF : Fetched U L (fetch h)) (hC : Closed L ∨ amount ≤ L.entries.length) :
-    loadHead acl fetch amount L h ≠ .error .panic := by
+    loadHead0 acl fetch amount L h ≠ .error .panic := by
   intro hp
-  obtain ⟨_, hsz, hgt⟩ := (loadHead_panic_iff acl fetch amount L h).mp hp
+  obtain ⟨_, hsz, hgt⟩ := (loadHead0_panic_iff acl fetch amount L h).mp hp
   obtain ⟨hI1, hnd1⟩ := fetched_joinCore hU hG hF
   rw [values_length hU hT hM _ hI1 hnd1] at hgt
   have hA := fetched_honest hF
